@@ -103,6 +103,16 @@ Check (C11_tail_preserved :
     extra_of fs vfs = [] ->
     chk_record cf fs (CTVar k excl) l (VRec vfs (RSeal k l0 tfs vt))
     = Ok (VRec (extend_fields (center_of fs l vfs) tfs) vt)).
+Check (C11_nested_tail_preserved :
+  forall cf fs k excl ln lp vfs vt vfs' p,
+    lookup_tyvar k (ltenv ln) = Some p -> p <> lpol ln ->
+    lookup_tyvar k (ltenv lp) = Some (lpol lp) ->
+    (forall x c, In (x, c) fs -> mem x vfs = true) -> extra_of fs vfs = [] ->
+    (forall x c, In (x, c) fs -> mem x vfs' = true) -> extra_of fs vfs' = [] ->
+    chk_record cf fs (CTVar k excl) ln (VRec vfs vt)
+      = Ok (VRec (center_of fs ln vfs) (RSeal k (flip ln) [] vt))
+    /\ chk_record cf fs (CTVar k excl) lp (VRec vfs' (RSeal k (flip ln) [] vt))
+      = Ok (VRec (center_of fs lp vfs') vt)).
 Check (C11_tail_tampered_blames :
   forall cf fs k excl l vfs vt,
     lookup_tyvar k (ltenv l) = Some (lpol l) ->
